@@ -103,6 +103,23 @@ func runHistoryGo(kp *KeyPair, nu0 *big.Int, time0 int64, steps []any) string {
 			}
 			h.updates[st.str("u")] = u
 			out = append(out, "update-ok")
+		case "redecode":
+			// the client reads the next message into the update object it already has (and from
+			// which witnesses have been updated before)
+			from, to := st.int("from"), st.int("to")
+			nu, err := revocation.NewUpdate(kp.sk, h.accs[to], append([]*revocation.Event{}, h.events[from:to+1]...))
+			if err != nil {
+				return "redecode-failed " + err.Error()
+			}
+			bts, err := json.Marshal(nu)
+			if err != nil {
+				panic(err)
+			}
+			if err := json.Unmarshal(bts, h.updates[st.str("u")]); err != nil {
+				out = append(out, "redecode-err")
+			} else {
+				out = append(out, "redecode-ok")
+			}
 		case "prepend":
 			// older events put in front of an update object, as a client does that fetches history in
 			// chunks; the chunk arrives in memory, or in its wire form with the product of its values
@@ -262,6 +279,15 @@ func (b *histBuilder) mkbadevents(id string, from, to, k int) {
 	b.expect = append(b.expect, "update-ok")
 }
 
+// redecode: the message for from..to read into the existing update object u
+func (b *histBuilder) redecode(id string, from, to int) {
+	b.steps = append(b.steps, map[string]any{"t": "redecode", "u": id, "from": from, "to": to})
+	b.upd[id] = [2]int{from, to}
+	delete(b.badev, id)
+	delete(b.badupd, id)
+	b.expect = append(b.expect, "redecode-ok")
+}
+
 // mkothercounter: a genuine update announced under another key counter: never applicable
 func (b *histBuilder) mkothercounter(id string, from, to int) {
 	b.steps = append(b.steps, map[string]any{"t": "mkupdate", "u": id, "from": from, "to": to, "othercounter": true})
@@ -337,6 +363,27 @@ func chosenEventValuesOp(g *Rng, kp *KeyPair) Op {
 		for wi := 0; wi <= n; wi++ {
 			tmp := fmt.Sprintf("t%s_%d", id, wi)
 			b.clone(fmt.Sprintf("w%d", wi), tmp)
+			b.apply(tmp, id)
+			b.verifyw(tmp)
+		}
+	}
+	// an update object reused as the receiver of the next message, after witnesses have been
+	// updated from it: they stay where they were until the new message is applied to them
+	for _, win := range [][4]int{{1, 1, 1, 3}, {1, 2, 3, 4}, {1, 3, 1, 2}, {2, 2, 1, 4}} {
+		id := fmt.Sprintf("re%d%d%d%d", win[0], win[1], win[2], win[3])
+		b.mkupdate(id, win[0], win[1])
+		var tmps []string
+		for wi := 0; wi <= n; wi++ {
+			tmp := fmt.Sprintf("t%s_%d", id, wi)
+			tmps = append(tmps, tmp)
+			b.clone(fmt.Sprintf("w%d", wi), tmp)
+			b.apply(tmp, id)
+		}
+		b.redecode(id, win[2], win[3])
+		for _, tmp := range tmps {
+			b.verifyw(tmp)
+		}
+		for _, tmp := range tmps {
 			b.apply(tmp, id)
 			b.verifyw(tmp)
 		}
